@@ -1,6 +1,7 @@
 //! vh — conformance harness binding the TLA+ specifications in /verif/spec to the real
 //! pdatastructs code (path dependency on /repo, built with --cfg pdatastructs_verif).
 mod common;
+mod ctor;
 mod bl;
 mod ck;
 mod cms;
@@ -115,6 +116,7 @@ fn main() {
         ("scenario", "tdr") => scenario::<td::TdRealSut>(&args),
         ("drive", "tdr") => td::drive_real(&args),
         ("rank", "td") => td::rank(&args),
+        ("ctor", _) => ctor::run(&args),
         ("sizing", _) => sizing::run(&args),
         ("mem", _) => mem::run(&args),
         ("replay", "ck") => replay::<ck::CkSut>(&args),
